@@ -70,6 +70,24 @@ def explore(res, rng, n):
         comps = ','.join(f'{gen.bits(f)},{gen.bits(p)},{gen.bits(ph)}' for f, p, ph in zip(freq, psd, phases))
         reqs.append(f'synth {gen.bits(fs)} {gen.bits(bw)} {nxt} {nn} {comps}')
         meta.append((case, [float(a) for a in amps]))
+        # ---- durations that are not a whole number of sampling intervals: round(fs*T) samples at times k/fs
+        T2 = rng.choice([4.05, 2.53, 1.26, 0.99])
+        fs3 = rng.choice([8.0, 10.0, 25.0])
+        nn2 = round(fs3 * T2)
+        freq2 = [0.5, 1.0, 1.5, 2.0]
+        psd2 = [rng.choice([0.5, 1.0, 2.0]) for _ in freq2]
+        rv2 = [rng.uniform(-2, 2) for _ in freq2]
+        with mock.patch.object(np.random, 'randn', side_effect=lambda k: np.array(rv2[:k])):
+            ts2, amps2 = lsg.spectralRepresentation(fs3, T2, freq2, psd2, randomSeed=1)
+        res.evaluations += 1
+        res.stat('duration_not_multiple_of_sampling_interval')
+        case3 = {'fs': fs3, 'time': T2, 'freq': freq2, 'psd': psd2, 'randn': rv2}
+        if len(ts2) != nn2 or len(amps2) != nn2 or not np.allclose(ts2, np.arange(nn2) / fs3, rtol=0, atol=1e-12):
+            fail(res, 'series does not have round(fs*T) samples at times k/fs', case3, [len(ts2), nn2, [float(v) for v in ts2[:3]]])
+        ph2 = [-np.pi + 2 * np.pi * r for r in rv2]
+        comps2 = ','.join(f'{gen.bits(f)},{gen.bits(p)},{gen.bits(q)}' for f, p, q in zip(freq2, psd2, ph2))
+        reqs.append(f'synth {gen.bits(fs3)} {gen.bits(0.5)} 1 {nn2} {comps2}')
+        meta.append((case3, [float(a) for a in amps2]))
         # ---- estimation on an arbitrary series
         L = rng.choice([8, 9, 16, 31, 64]) if i % 6 else rng.choice([4099, 5003, 8198])      # long records with a large prime factor
         x = np.array([rng.gauss(0, 1) + rng.choice([0.0, 3.0]) for _ in range(L)])
